@@ -152,8 +152,7 @@ def analyse(did, out):
             m = S.replay_trace(el, t, reset_active=act, stats=r["stats"])
             if m:
                 m["trace"] = tag
-                if not m["contradiction"] and not m["stimulus_fully_defined"] and \
-                        S.replay_trace(el, t, reset_active=act, case_merge=True) is None:
+                if known_pessimism(el, t, act, m):
                     r["known"].append(m)
                 else:
                     m["stimulus"] = circ.stim_of(t)
@@ -161,13 +160,27 @@ def analyse(did, out):
         tvf, tbf = out / did / "testbench.testvectors", out / did / "testbench.vhd"
         if tvf.exists() and tbf.exists():
             tv = S.replay_testvectors(el, tvf.read_text(), tbf.read_text())
-            r["tv"] = dict(checks=tv["checks"], sets=tv["sets"], failed=tv["failed"], edges=tv["edges"])
+            r["tv"] = dict(checks=tv["checks"], sets=tv["sets"], failed=tv["failed"], edges=tv["edges"], failed_known=0)
+            if tv["failed"] and all(S.std_match(S.to_x01(f["observed"]).replace("X", "-"), f["expected"]) for f in tv["failed"]):
+                # only pessimism (no CHECK contradicted by a defined VHDL bit): explained by the CASE/OTHERS export?
+                if not S.replay_testvectors(el, tvf.read_text(), tbf.read_text(), case_merge=True)["failed"]:
+                    r["tv"]["failed_known"] = len(tv["failed"])
+                    r["tv"]["failed"] = []
+                    if not r["known"]:
+                        r["known"].append(dict(tv["failed"][0], cycle="t=%dps" % tv["failed"][0]["time_ps"], inputs="(test vector replay)", trace="testvectors"))
         r["interp"] = "ok"
     except P.Unsupported as ex:
         r["interp"] = "unsupported"; r["interp_reason"] = str(ex)
     except (P.LiftError, S.VhdlRuntimeError) as ex:
         r["interp"] = "error"; r["interp_reason"] = f"{type(ex).__name__}: {ex}"
     return r
+
+
+def known_pessimism(el, t, act, m):
+    """the known finding `mux-undefined-selector-case-others`: the VHDL is only LESS defined than the simulator (no defined
+    bit contradicts) and the difference disappears when a CASE whose selector contains a metavalue merges its branches like
+    Node_Multiplexer does instead of taking WHEN OTHERS (that switch changes nothing for fully defined selectors)"""
+    return (not m["contradiction"]) and S.replay_trace(el, t, reset_active=act, case_merge=True) is None
 
 
 def reset_polarity(el):
@@ -227,7 +240,7 @@ def main():
 
     modes = ["single"] if rep.tier == "quick" else ["single", "entity", "partition"]
     results = {}          # (mode, id) -> analysis
-    lines = []
+    lines, lines_l = [], []
     t_h = time.time()
     for mode in modes:
         out = WORK / ("run_" + mode)
@@ -247,20 +260,21 @@ def main():
         for i in ids:
             results[(mode, i)] = analyse(i, out)
         # verified checker + ties
-        cmds = []
+        cmds, cmds_l = [], []
         for i in ids:
             a = results[(mode, i)]
             if a["status"] != "ok":
                 continue
             cmds.append(f"tie {out}/{i}.net {out}/{i}.trace")
             if a["lift"] == "ok":
-                cmds.append(f"tie {out}/{i}.lift.net {out}/{i}.trace")
+                cmds_l.append(f"tie {out}/{i}.lift.net {out}/{i}.trace")
                 if a["in_bits"] <= MAX_CERT_IN_BITS:
                     cmds.append(f"cert refine {out}/{i}.net {out}/{i}.lift.net {out}/{i}.trace {BUDGET}")
                 else:
                     a["cert"] = "too_big"
         if driver and cmds:
             lines += [(mode, l) for l in circ.run_driver(driver, cmds, str(WORK / ("batch_" + mode)))]
+            lines_l += [(mode, l) for l in circ.run_driver(driver, cmds_l, str(WORK / ("batchl_" + mode)))]
     t_h = time.time() - t_h
 
     # ---- collect driver verdicts -------------------------------------------------------------
@@ -283,6 +297,23 @@ def main():
             if a is not None:
                 a["cert"] = "ok" if tgt is cert_ok else "fail" if tgt is cert_fail else "rejected" if tgt is cert_rej else \
                     "too_big" if tgt is cert_big else "unsupported"
+        elif l.startswith("ERROR"):
+            errors.append((mode, l))
+
+    # ties of the LIFTED netlists: informative only (the lifted circuit may legitimately be more or less defined than the
+    # simulator where undefined values are involved); a contradiction of two defined bits is reported as broken
+    lift_tie_ok = lift_tie_xdiff = 0
+    lift_tie_contra = []
+    for mode, l in lines_l:
+        if l.startswith("TIE") and " ok " in l:
+            lift_tie_ok += 1
+        elif l.startswith("TIE") and "MISMATCH" in l:
+            mo = [x for x in l.split() if x.startswith("model=")][0][6:]
+            im = [x for x in l.split() if x.startswith("impl=")][0][5:]
+            if any(a in "01" and b in "01" and a != b for a, b in zip(mo, im)):
+                lift_tie_contra.append((mode, l))
+            else:
+                lift_tie_xdiff += 1
         elif l.startswith("ERROR"):
             errors.append((mode, l))
 
@@ -313,8 +344,7 @@ def main():
                 continue
             m = S.replay_trace(el, t, reset_active=act)
             if m:
-                if not m["contradiction"] and not m["stimulus_fully_defined"] and \
-                        S.replay_trace(el, t, reset_active=act, case_merge=True) is None:
+                if known_pessimism(el, t, act, m):
                     continue
                 m["trace"] = tag
                 m["stimulus"] = circ.stim_of(t)
@@ -421,6 +451,9 @@ def main():
     rep.cov["checker_unsupported"] = len(cert_uns)
     rep.cov["traces_validated_against_impl"] = tie_ok
     rep.cov["tie_mismatch"] = len(tie_bad_l)
+    rep.cov["lifted_netlist_traces_identical_to_impl"] = lift_tie_ok
+    rep.cov["lifted_netlist_traces_differing_only_in_definedness"] = lift_tie_xdiff
+    rep.cov["lifted_netlist_traces_contradicting_impl"] = len(lift_tie_contra)
     rep.cov["tie_unsupported"] = len(tie_uns)
     rep.cov["skipped_not_exportable"] = sum(1 for a in allr if a["status"] == "skip")
     rep.cov["skip_reasons"] = sorted({a["reason"][:120] for a in allr if a["status"] == "skip"})[:6]
@@ -473,6 +506,8 @@ def main():
         broken.append("extracted model no longer builds: " + V.last_model_log[-600:])
     if tie_bad_l:
         broken.append(f"{len(tie_bad_l)} tie mismatches (model of dumped or lifted netlist vs real simulator), first: {tie_bad_l[0][1][:300]}")
+    if lift_tie_contra:
+        broken.append(f"{len(lift_tie_contra)} traces where the netlist lifted from the VHDL contradicts the real simulator, first: {lift_tie_contra[0][1][:300]}")
     if cert_rej:
         broken.append(f"{len(cert_rej)} certificates rejected by the verified checker, first: {cert_rej[0][2][:300]}")
     if errors:
